@@ -188,12 +188,21 @@ pub const SIZES: [usize; 16] = [
 ];
 
 pub fn shard_size(rng: &mut Rng, k: usize, r: usize) -> usize {
+    // Large shard counts usually get tiny shards (speed), but now and then a
+    // shard length whose number of 64-byte blocks is not a power of two:
+    // anything keyed on (number of shards) x (blocks per shard) needs both.
     let big = k.max(r) > 4096;
     if big {
+        if rng.chance(1, 8) {
+            return *rng.pick(&[130usize, 190, 192, 300, 320]);
+        }
         return *rng.pick(&[2usize, 2, 4, 64, 66]);
     }
     let mid = k.max(r) > 256;
     if mid {
+        if rng.chance(1, 8) {
+            return *rng.pick(&[190usize, 320, 448, 1088, 1100, 2240]);
+        }
         return *rng.pick(&[2usize, 4, 30, 62, 64, 66, 128, 130]);
     }
     let small = k.max(r) <= 16;
